@@ -156,6 +156,42 @@ def judge(case, mdl, shadow, res, name):
     return viols
 
 
+def witness_consistency(case, shadow):
+    """
+    The '--rename' stamps are cutadapt's own record of which mate had a match. When adapter
+    trimming is the only modification (default action, one round), a mate with a recorded match
+    must differ from both input mates and a mate without one must equal one of them -- so a
+    match recorded on the wrong mate's info object cannot hide behind its own stamp.
+    """
+    if any(g[0] in MODIFIER_FLAGS for g in case["opts"]):
+        return []
+    if (C._optval(case["opts"], "--action") or "trim") != "trim" or C._optval(case["opts"], "-n"):
+        return []
+    out = []
+    byid = {r[0]: r for r in case["records"]}
+    for i, w in shadow.items():
+        st = stamps(w["r1"])
+        if st is None:
+            continue
+        src = byid[i]
+        revcomp = case["meta"].get("revcomp")
+        for side, rec, stamp in ((1, w["r1"], st[0]), (2, w["r2"], st[1])):
+            own = src[3 if side == 1 else 5]
+            other = src[5 if side == 1 else 3]
+            if revcomp:
+                # the mates may have changed places; very short reads could coincide by chance
+                if len(rec[1]) < 8:
+                    continue
+                unchanged = rec[1] in (own, other)
+            else:
+                unchanged = rec[1] == own
+            matched = stamp != "no_adapter"
+            if matched == unchanged and not (matched and len(src[3 if side == 1 else 5]) == 0):
+                out.append(C.V("match-on-wrong-mate", f"pair {i}: R{side} is {'unchanged' if unchanged else 'trimmed'} but its recorded last match is {stamp}"))
+                return out
+    return out
+
+
 def evaluate(case, ctx):
     files = engine.gen_files(case)
     case["meta"]["fates"] = []
@@ -175,6 +211,9 @@ def evaluate(case, ctx):
         return v0
     if len(shadow) != len(case["records"]):
         return [C.V("shadow-incomplete", f"shadow run without filters wrote {len(shadow)} of {len(case['records'])} pairs")]
+    v1 = witness_consistency(case, shadow)
+    if v1:
+        return v1
     mdl = M.Model(case)
     ref = C.run_serial(case, ctx, files)
     if ref.exit == 2:
